@@ -39,7 +39,10 @@ def configs(rnd, count, n_max=12):
         out.append(c)
     # directed ones (always present)
     out[:0] = [dict(n=10, burn=("frac", 5), pw=(4, 5), rnd=True, post_load=3), dict(n=9, burn=("frac", 5), pw=(4, 5), rnd=True, pilot_n=4),
-               dict(n=5, burn=("count", 2), pw=(0, 0), rnd=True)]
+               dict(n=5, burn=("count", 2), pw=(0, 0), rnd=True),
+               dict(n=6, burn=("count", 0), pw=(4, 5), rnd=True),        # an explicit count of zero is a count
+               dict(n=8, burn=("frac8", 3), pw=(13, 20), rnd=False),     # a fraction that is not a whole percent
+               dict(n=7, burn=("count", 8), pw=(1, 1), rnd=True)]        # a count beyond the run
     return out[:count]
 
 
@@ -63,7 +66,7 @@ def run(ctx):
         ctx.violation({"check": "design", "invariant": res.violated[0]}, f"Saem.tla violates {res.violated}", replay=res.trace_text[:4000])
     rnd = random.Random(ctx.seed)
     kinds = ["logistic_diag_src1", "linear_scalar_src1", "joint_src1"] if q else list(zoo.CONFIGS)
-    per_kind = 14 if q else 60
+    per_kind = 17 if q else 60
     unobservable = 0
     first = None
     for kind in kinds:
